@@ -24,3 +24,6 @@ PROP = {'title': 'Checked conversions and integer helpers equal their mathematic
                  'interval_distance is compared only where its documentation is unambiguous (no shared end point with containment)']}
 
 PROP['rule'] += ' cast::to_signed/to_unsigned/size on every value that is representable in the result (all 8/16-bit values, lattice for 32/64 bit, all same-signedness type pairs); bit::mask_c / shifted_mask_c for every bit position of u8..u64 with bit::test against every single-bit value.'
+
+PROP['rule'] += (" interval_distance is also called on the interval pairs that share an end point with containment (value not judged: documentation "
+                 "and code disagree there; the call has to return).")
